@@ -48,6 +48,8 @@ pub enum PoolOp {
     TensorOperations { ops: Vec<(L, Vec<L>, Vec<L>)> },
     /// apply the run's functor
     Functor { i: usize },
+    /// apply the run's optic (optionally adapted)
+    Optic { i: usize, adapted: bool },
     /// strict -> lax -> strict (Vec device only; a no-op elsewhere)
     RoundTrip { i: usize },
 }
@@ -86,6 +88,8 @@ pub struct Case {
     pub seeds: Vec<Plain>,
     pub ops: Vec<PoolOp>,
     pub spec: FSpec,
+    #[serde(default)]
+    pub ospec: Option<super::func::OSpec>,
     pub raw: Raw,
     pub schedules: usize,
 }
@@ -193,6 +197,16 @@ dev_impl! {
                     let spec = &c.spec;
                     let want = a.1.substitute(&|l| spec.ob_of(l), &|l, x, y| spec.image(l, x, y));
                     (Some(<SpecFunctor as Functor<K, L, L, L, L>>::map_arrow(&fu, &a.0)), Some(want))
+                }
+                PoolOp::Optic { i, adapted } => {
+                    let a = pick(i);
+                    let spec = match &c.ospec {
+                        Some(s) if a.1.w.len() <= 6 && a.1.e.len() <= 3 => s,
+                        _ => continue,
+                    };
+                    let img = super::c14::optic_reference(spec, &a.1);
+                    let want = if *adapted { super::c14::adapted_reference(spec, &img, &a.1.src_type(), &a.1.tgt_type()) } else { img };
+                    (Some(Self::c14_apply(spec, &a.0, *adapted)), Some(want))
                 }
                 PoolOp::RoundTrip { i } => {
                     let a = pick(i);
@@ -355,7 +369,7 @@ pub fn lax_pool(c: &Case) -> Vec<StepObs> {
                 }
                 (Some(f), Some(Plain::tensor_all(&ops.iter().map(|o| Plain::singleton(o.0, &o.1, &o.2)).collect::<Vec<_>>())))
             }
-            PoolOp::Functor { .. } | PoolOp::RoundTrip { .. } => continue, // C12 / the strict pool cover these
+            PoolOp::Functor { .. } | PoolOp::RoundTrip { .. } | PoolOp::Optic { .. } => continue, // C12 / C14 / the strict pool cover these
         };
         let keep = want.as_ref().map_or(false, |w| w.w.len() <= MAX_NODES && w.e.len() <= MAX_NODES);
         let trait_types = got.as_ref().map(|g| (Arrow::source(g), Arrow::target(g)));
@@ -550,7 +564,8 @@ fn gen_pool_op(r: &mut Rng, c: &gen::GenCfg) -> PoolOp {
     let j = r.below(6);
     let legs = |r: &mut Rng| -> Vec<usize> { (0..r.below(4)).map(|_| r.below(16)).collect() };
     let ty = |r: &mut Rng| -> Vec<L> { (0..r.below(3)).map(|_| r.below(c.node_labels) as L).collect() };
-    match r.below(16) {
+    match r.below(17) {
+        16 => PoolOp::Optic { i, adapted: r.chance(1, 2) },
         0..=1 => PoolOp::Compose { i, j },
         2..=4 => PoolOp::Sandwich { i, j },
         5 => PoolOp::ComposeDagger { i },
@@ -576,7 +591,7 @@ impl Check for C05 {
     type Case = Case;
     const ID: &'static str = "C05";
     fn runs(tier: Tier) -> u64 {
-        crate::runner::scaled(300_000, tier)
+        crate::runner::scaled(220_000, tier)
     }
     fn generate(r: &mut Rng, tier: Tier) -> Case {
         let mut c = gen::draw_cfg(r, tier);
@@ -588,7 +603,8 @@ impl Check for C05 {
         let k = if r.chance(3, 4) { r.range(1, 6) } else { r.range(6, max) };
         let ops = (0..k).map(|_| gen_pool_op(r, &c)).collect();
         let spec = super::c12::gen_spec(r, c.node_labels);
-        Case { seeds, ops, spec, raw: gen_raw(r, &c), schedules: r.range(1, 2) }
+        let ospec = Some(super::c14::gen_ospec(r, c.node_labels));
+        Case { seeds, ops, spec, ospec, raw: gen_raw(r, &c), schedules: r.range(1, 2) }
     }
     fn execute(c: &Case, ex: &mut Exec) -> Result<(), Violation> {
         let mut fp = Fp::new();
@@ -662,7 +678,7 @@ impl Check for C05 {
         out
     }
     fn rule() -> &'static str {
-        "Pool machine: each run seeds a pool with 1-3 generated diagrams and applies 1-6 (3/4 of the runs) or up to 30/40 random public operations to pool members, putting results back (pool of 6, diagrams capped at 28 nodes): compose (arbitrary members: mostly a type mismatch that must be refused), sandwich (p⊗id);(id⊗q), p;p†, tensor, dagger, identity, symmetry after a tensor, spider / half_spider over a member's node labels, singleton, tensor_operations, functor application (the run's generated functor), strict->lax->strict (Vec only). After every step on sim/control, vec and 1-2 perturbed schedules: result deep-well-formed (one source and one target list per hyperedge, sizes add up, codomains and every node reference in range; from raw fields), typed as promised, isomorphic to its plain reference twin. Constructors: raw parts of a well-formed base with at most one datum flipped (table entry = codomain, codomain shrunk, size-map codomain / value count / segment size / counts / incidence codomain / label count / leg codomain off by one) handed to FiniteFunction::new, IndexedCoproduct::new / from_semifinite, Operations::new, Hypergraph::new, OpenHypergraph::new on both devices; must accept iff the documented condition holds. Non-trivial iff there is an operation and a non-empty seed; distinct = distinct (workload fingerprint, device decision fingerprint)."
+        "Pool machine: each run seeds a pool with 1-3 generated diagrams and applies 1-6 (3/4 of the runs) or up to 30/40 random public operations to pool members, putting results back (pool of 6, diagrams capped at 28 nodes): compose (arbitrary members: mostly a type mismatch that must be refused), sandwich (p⊗id);(id⊗q), p;p†, tensor, dagger, identity, symmetry after a tensor, spider / half_spider over a member's node labels, singleton, tensor_operations, functor application (the run's generated functor), optic application and adapt (the run's generated optic, compared with the reference substitution of lenses), strict->lax->strict (Vec only); the same sequence runs through the lax public API on the Vec device (operands keep their pending unifications). After every step on sim/control, vec and 1-2 perturbed schedules: result deep-well-formed (one source and one target list per hyperedge, sizes add up, codomains and every node reference in range; from raw fields), typed as promised, isomorphic to its plain reference twin. Constructors: raw parts of a well-formed base with at most one datum flipped (table entry = codomain, codomain shrunk, size-map codomain / value count / segment size / counts / incidence codomain / label count / leg codomain off by one) handed to FiniteFunction::new, IndexedCoproduct::new / from_semifinite, Operations::new, Hypergraph::new, OpenHypergraph::new on both devices; must accept iff the documented condition holds. Non-trivial iff there is an operation and a non-empty seed; distinct = distinct (workload fingerprint, device decision fingerprint)."
     }
     fn assumptions() -> Vec<&'static str> {
         vec![
